@@ -74,7 +74,7 @@ class Poly:
         return self.t.get((), 0) if self.is_const() else None
 
     def key(self):
-        return tuple(sorted(((tuple(_atom_key(a) for a in m), c) for m, c in self.t.items())))
+        return tuple(sorted(((tuple(m), c) for m, c in self.t.items()), key=repr))
 
     def show(self, names=None):
         names = names or {}
